@@ -659,7 +659,7 @@ def _modifier_to_expr(parsed_pattern) -> str:
             # Range
             conditions.append(f"amount >= {cond.min_value} and amount <= {cond.max_value}")
         elif cond.operator == '=':
-            conditions.append(f"amount == {cond.value}")
+            conditions.append(f"abs(amount - {cond.value}) < 0.01")
         else:
             conditions.append(f"amount {cond.operator} {cond.value}")
 
